@@ -210,7 +210,9 @@ Record ctx_facts (c : ctx_table) : Prop := {
   f_iter_some : ct_iter_some c = NSet;
   f_next : ct_next_slice c = 0 /\ ct_next_set c = 0 /\ plain_var (ct_next_val c) v_ga = true;
   f_md_regs : plain_var (ct_md_regs_val c) v_mga = true;
-  f_md_size : plain_var (ct_md_size c) v_size = true
+  f_md_size : plain_var (ct_md_size c) v_size = true;
+  f_layout : forall n, In n (accepted c) -> ok_layout c n = true;
+  f_disjoint : forall n, In n (accepted c) -> ok_disjoint c n = true
 }.
 
 Lemma facts_of_diagnose : forall c, diagnose c = [] -> ctx_facts c.
@@ -241,7 +243,9 @@ Proof.
   apply app_eq_nil in H. destruct H as [G2 H].
   apply app_eq_nil in H. destruct H as [G3 H].
   apply app_eq_nil in H. destruct H as [G4 H].
-  apply app_eq_nil in H. destruct H as [G5 G6].
+  apply app_eq_nil in H. destruct H as [G5 H].
+  apply app_eq_nil in H. destruct H as [G6 H].
+  apply app_eq_nil in H. destruct H as [G7 G8].
   constructor.
   - exact (diag_nil _ _ _ _ H1).
   - exact (diag_nil _ _ _ _ H2).
@@ -277,6 +281,8 @@ Proof.
     apply Z.eqb_eq in X1. apply Z.eqb_eq in X2. repeat split; assumption.
   - exact (diag_nil _ _ _ _ G5 _ (or_introl eq_refl)).
   - exact (diag_nil _ _ _ _ G6 _ (or_introl eq_refl)).
+  - exact (diag_nil _ _ _ _ G7).
+  - exact (diag_nil _ _ _ _ G8).
 Qed.
 
 (* The one computational step: the checker run on the nine generated tables.  If a table
@@ -818,5 +824,54 @@ Proof.
       destruct (opt_name_eqb (memoize c n) (memoize c m)) eqn:Q; [|reflexivity].
       exfalso. apply opt_name_eqb_spec in Q. rewrite M in Q.
       pose proof (f_acc_memo c F m Hm) as Sm. rewrite <- Q in Sm. discriminate.
+Qed.
+(* ------------------------------------------------------------------ deserialised contexts: which bytes a name reads *)
+Lemma decode_le_range : forall bytes, (forall k, 0 <= bytes k < 256) -> forall n off, 0 <= decode_le bytes off n < 256 ^ Z.of_nat n.
+Proof.
+  intros bytes B n. induction n as [|n IH]; intro off; [cbn; lia|].
+  cbn [decode_le]. rewrite Nat2Z.inj_succ, Z.pow_succ_r by lia. specialize (IH (off + 1)). specialize (B off). lia.
+Qed.
+Lemma decode_be_range : forall bytes, (forall k, 0 <= bytes k < 256) -> forall n off acc m, 0 <= acc < 256 ^ m -> 0 <= m ->
+  0 <= decode_be bytes off n acc < 256 ^ (m + Z.of_nat n).
+Proof.
+  intros bytes B n. induction n as [|n IH]; intros off acc m A M; [cbn [decode_be]; rewrite Z.add_0_r; exact A|].
+  cbn [decode_be]. replace (m + Z.of_nat (S n)) with ((m + 1) + Z.of_nat n) by lia. apply IH; [|lia].
+  rewrite Z.pow_add_r by lia. specialize (B off). change (256 ^ 1) with 256. lia.
+Qed.
+Lemma decode_range : forall big bytes, (forall k, 0 <= bytes k < 256) -> forall off n, 0 <= decode big bytes off n < 256 ^ Z.of_nat n.
+Proof.
+  intros big bytes B off n. unfold decode. destruct big; [|apply decode_le_range; exact B].
+  apply (decode_be_range bytes B n off 0 0); lia.
+Qed.
+
+Lemma read_registers : forall n, In n (accepted c) -> forall big bytes,
+  exists off, loc_offset c (loc_of c n) = Some off /\ 0 <= off /\
+    get_always c (decode_base c big bytes) n = Ret (decode big bytes off (Z.to_nat (ct_width c / 8))) /\
+    ((forall k, 0 <= bytes k < 256) -> 0 <= decode big bytes off (Z.to_nat (ct_width c / 8)) < 2 ^ ct_width c) /\
+    (forall m, In m (accepted c) -> memoize c m <> memoize c n ->
+       exists off', loc_offset c (loc_of c m) = Some off' /\ (off + ct_width c / 8 <= off' \/ off' + ct_width c / 8 <= off)).
+Proof.
+  intros n Hn big bytes. pose proof (f_layout c F n Hn) as L. unfold ok_layout in L.
+  destruct (accepted_tables n Hn) as [a [b [_ [_ [_ [Hoa [_ [Hl _]]]]]]]].
+  destruct (field_layout (l_field (loc_of c n)) (ct_fields c)) as [[[w len] off]|] eqn:E; [|discriminate].
+  apply andb_true_iff in L. destruct L as [L O]. apply andb_true_iff in L. destruct L as [W Ln].
+  apply Z.eqb_eq in W. apply Z.eqb_eq in Ln. apply Z.leb_le in O. subst w.
+  assert (Idx : 0 <= (if l_idx (loc_of c n) <? 0 then 0 else l_idx (loc_of c n))) by (destruct (l_idx (loc_of c n) <? 0) eqn:Q; [lia | apply Z.ltb_ge in Q; exact Q]).
+  assert (W8 : 0 <= ct_width c / 8) by (destruct (f_width c F) as [X|X]; rewrite X; vm_compute; discriminate).
+  exists (off + (if l_idx (loc_of c n) <? 0 then 0 else l_idx (loc_of c n)) * (ct_width c / 8)).
+  split; [unfold loc_offset; rewrite E; reflexivity|]. split; [nia|].
+  split.
+  { rewrite (get_always_accepted _ n Hn). unfold rf_get, decode_base. rewrite E. reflexivity. }
+  split.
+  { intro B. pose proof (decode_range big bytes B (off + (if l_idx (loc_of c n) <? 0 then 0 else l_idx (loc_of c n)) * (ct_width c / 8)) (Z.to_nat (ct_width c / 8))) as R.
+    assert (P : 256 ^ Z.of_nat (Z.to_nat (ct_width c / 8)) = 2 ^ ct_width c) by (destruct (f_width c F) as [X|X]; rewrite X; vm_compute; reflexivity).
+    rewrite P in R. exact R. }
+  intros m Hm Hne. pose proof (f_disjoint c F n Hn) as D. unfold ok_disjoint in D. rewrite forallb_forall in D. specialize (D m Hm).
+  unfold loc_offset in D at 1. rewrite E in D.
+  destruct (loc_offset c (loc_of c m)) as [off'|]; [|discriminate]. exists off'. split; [reflexivity|].
+  apply orb_true_iff in D. destruct D as [D|D]; [apply orb_true_iff in D; destruct D as [D|D]|].
+  - exfalso. apply Hne. symmetry. apply (alias_loc n m Hn Hm). exact D.
+  - left. apply Z.leb_le in D. exact D.
+  - right. apply Z.leb_le in D. exact D.
 Qed.
 End WithFacts.
